@@ -18,9 +18,9 @@ EXIT_HELD, EXIT_VIOLATION, EXIT_UNDECIDED, EXIT_FAULT = 0, 1, 2, 3
 
 def _unit_worker(job):
     """runs in a forked worker: one (contract, shape) unit"""
-    prop, modname, key, shape, timeout_ms, canary, mode = job
+    prop, modname, key, shape, timeout_ms, canary, mode, prefixes, max_paths = job
     t0 = time.time()
-    out = {"key": key, "shape": shape, "mode": mode, "obligations": [], "unsupported": [], "error": None, "paths": 0, "normal_paths": 0, "raise_paths": 0, "functions": {}, "notes": [], "time": 0.0}
+    out = {"key": key, "shape": shape, "mode": mode, "obligations": [], "unsupported": [], "error": None, "paths": 0, "normal_paths": 0, "raise_paths": 0, "functions": {}, "notes": [], "time": 0.0, "leftover": []}
     try:
         sys.path.insert(0, VERIF)
         from pyvc.source import Repo
@@ -32,7 +32,8 @@ def _unit_worker(job):
         reg = Registry(repo, [modname])
         c = S.CONTRACTS[key]
         v = Verifier(repo, reg, timeout_ms)
-        res = v.run(c, shape=shape, prop=prop, mode=mode)
+        res = v.run(c, shape=shape, prop=prop, mode=mode, prefixes=prefixes, max_paths=max_paths)
+        out["leftover"] = res.leftover
         discharge(res, timeout_ms)
         out["paths"], out["normal_paths"], out["raise_paths"] = res.paths, res.normal_paths, res.raise_paths
         out["unsupported"] = list(res.unsupported)
@@ -98,13 +99,65 @@ def plan_units(prop, modname, tier):
 
 
 def run_units(prop, modname, units, tier, jobs=None):
+    """run all units in a process pool.  A unit's path exploration is split dynamically:
+    a job explores at most PATHS_PER_JOB paths and hands the unexplored decision prefixes
+    back; these are re-submitted as new jobs (work sharing across the 16 cores)."""
     timeout_ms = 20000 if tier == "quick" else 120000
-    jobs_list = [(prop, modname, key, shape, timeout_ms, True, mode) for key, shape, mode in units]
-    n = jobs or min(16, max(1, len(jobs_list)))
+    paths_per_job = 10
+    n = jobs or 16
     ctx = mp.get_context("fork")
+    merged = {}
+    order = []
     with ctx.Pool(n) as pool:
-        results = pool.map(_unit_worker, jobs_list, chunksize=1)
-    return results
+        pending = []
+
+        def submit(key, shape, mode, prefixes, canary):
+            job = (prop, modname, key, shape, timeout_ms, canary, mode, prefixes, paths_per_job)
+            pending.append(((key, json.dumps(shape, sort_keys=True), mode), pool.apply_async(_unit_worker, (job,))))
+
+        for key, shape, mode in units:
+            uid = (key, json.dumps(shape, sort_keys=True), mode)
+            order.append(uid)
+            merged[uid] = {"key": key, "shape": shape, "mode": mode, "obligations": [], "unsupported": [], "error": None, "paths": 0, "normal_paths": 0, "raise_paths": 0, "functions": {}, "notes": [], "time": 0.0, "jobs": 0}
+            submit(key, shape, mode, None, True)
+        while pending:
+            still = []
+            progressed = False
+            for uid, ar in pending:
+                if not ar.ready():
+                    still.append((uid, ar))
+                    continue
+                progressed = True
+                try:
+                    r = ar.get()
+                except Exception as e:  # worker crashed hard
+                    r = {"error": "checker fault: worker died: %r" % (e,), "leftover": [], "obligations": [], "unsupported": [], "paths": 0, "normal_paths": 0, "raise_paths": 0, "functions": {}, "notes": [], "time": 0.0}
+                mg = merged[uid]
+                mg["jobs"] += 1
+                mg["obligations"].extend(r["obligations"])
+                for u in r["unsupported"]:
+                    if u not in mg["unsupported"]:
+                        mg["unsupported"].append(u)
+                if r.get("error") and not mg["error"]:
+                    mg["error"] = r["error"]
+                for k in ("paths", "normal_paths", "raise_paths"):
+                    mg[k] += r[k]
+                mg["functions"].update(r["functions"])
+                mg["notes"] = sorted(set(mg["notes"]) | set(r["notes"]))
+                mg["time"] += r["time"]
+                if "canary" in r:
+                    mg["canary"] = r["canary"]
+                left = r.get("leftover") or []
+                chunk = 2
+                for i in range(0, len(left), chunk):
+                    still.append(None)  # placeholder keeps ordering simple
+                    still.pop()
+                    job = (prop, modname, mg["key"], mg["shape"], timeout_ms, False, mg["mode"], left[i : i + chunk], paths_per_job)
+                    still.append((uid, pool.apply_async(_unit_worker, (job,))))
+            pending = still
+            if not progressed:
+                time.sleep(0.05)
+    return [merged[u] for u in order]
 
 
 # ---------------------------------------------------------------------------
